@@ -14,59 +14,77 @@ import common  # noqa: E402
 from common import Ctx, ModelError, finish, log, prove  # noqa: E402
 
 
+def _warnings_as_errors() -> None:
+    """Variant W: every warning ATTRIBUTED TO A pyhap MODULE is an error (what `python -W error` /
+    PYTHONWARNINGS=error / pytest's filterwarnings=error do for an application, restricted to the code under
+    test so that deprecations inside asyncio, h11, cryptography or the harness do not matter)."""
+    import warnings
+
+    warnings.filterwarnings("error", category=Warning, module=r"pyhap(\.|$)")
+
+
+VARIANTS = [
+    # (name, interpreter flags, child --variant, replay marker, what it is)
+    ("python -O", ["-O"], "", "-O", "assert statements and `if __debug__` blocks compiled away"),
+    ("warnings-as-errors", [], "W", "warnings-as-errors", "warnings attributed to pyhap modules raised as exceptions"),
+]
+
+
 def _interpreter_variants(ctx: Ctx, prop: str, tier: str) -> None:
-    """The runtime environment as an input: a bounded repeat of the correspondence run and the oracle in a
-    child interpreter started with -O (assert statements and `if __debug__` blocks are compiled away), so that a
-    check which the code under test expresses as an `assert` is seen for what it is under the interpreter
-    flags an application may legitimately run with (judged by the property oracle only; the model-vs-code diff of
-    the variant run is recorded as a note, never reported).  Failures found there are ordinary failures whose replay
-    records `python_flags`; `--replay` re-runs them under the same flags.  Skipped when the normal run has
-    already found a failing input (nothing to add) or with VERIF_NO_VARIANTS=1."""
+    """The runtime environment as an input: a bounded repeat of the correspondence run and the oracle in child
+    interpreters — one started with -O (assert statements and `if __debug__` blocks are compiled away), one in
+    which every warning attributed to a pyhap module is an error — so that a check which the code under test
+    expresses as an `assert`, or a deprecated / warning call on a rarely taken path, is seen for what it is under
+    the settings an application may legitimately run with (judged by the property oracle only; the model-vs-code
+    diff of a variant run is recorded as a note, never reported).  Failures found there are ordinary failures whose
+    replay records `python_flags`; `--replay` re-runs them under the same settings.  A variant whose run on the
+    code under test cannot even start (the harness itself raises) is noted and not judged.  Skipped when the normal
+    run has already found a failing input (nothing to add) or with VERIF_NO_VARIANTS=1."""
     import subprocess
     import tempfile
+    import time as _t
 
     if os.environ.get("VERIF_NO_VARIANTS") == "1" or sys.flags.optimize:
         return
     known = common.load_known(prop)
-    if any(f.signature not in known for f in ctx.failures):
-        return
-    fd, out = tempfile.mkstemp(prefix=f"verif-subrun-{prop}-", suffix=".json")
-    os.close(fd)
-    try:
-        t0 = __import__("time").time()
-        p = subprocess.run(
-            [sys.executable, "-O", __file__, prop, "--tier", tier, "--no-proof", "--subrun", out],
-            capture_output=True, text=True, timeout=900 if tier == "quick" else 3000,
-            env=dict(os.environ, VERIF_NO_VARIANTS="1"),
-        )
-        try:
-            res = json.loads(Path(out).read_text())
-        except Exception:
-            ctx.stats.notes.append(f"python -O repeat produced no result (exit {p.returncode}): {p.stderr[-300:]}")
+    for name, flags, vname, marker, _what in VARIANTS:
+        if any(f.signature not in known for f in ctx.failures):
             return
-        ctx.stats.hit("op", "variant:python-O evaluations", int(res.get("evaluations") or 0))
-        ctx.stats.notes.append(
-            f"python -O repeat: {res.get('evaluations')} evaluations, {len(res.get('failures', []))} oracle failures, "
-            f"{res.get('n_disagreements')} disagreements, {__import__('time').time() - t0:.1f}s"
-        )
-        if res.get("error"):
-            ctx.stats.notes.append("python -O repeat: " + str(res["error"])[:300])
-        for f in res.get("failures", []):
-            rep = f["replay"]
-            if isinstance(rep, dict):
-                rep = dict(rep, python_flags="-O")
-            ctx.fail(f["signature"], f["description"] + " [found under python -O]", rep, size=f.get("size"))
-        # Model-vs-code differences seen under -O are NOT merged: the Lean model is a model of the code under the
-        # default interpreter (an `assert` is a raise there), and /repo itself contains type-narrowing asserts whose
-        # removal changes WHICH refusal is sent (e.g. POST /pairings on an unverified connection: 500 by default,
-        # 200 + TLV error under -O).  Only the property oracle judges the variant run.
-    except subprocess.TimeoutExpired:
-        ctx.stats.notes.append("python -O repeat timed out (not judged)")
-    finally:
+        fd, out = tempfile.mkstemp(prefix=f"verif-subrun-{prop}-", suffix=".json")
+        os.close(fd)
         try:
-            os.unlink(out)
-        except OSError:
-            pass
+            t0 = _t.time()
+            cmd = [sys.executable, *flags, __file__, prop, "--tier", tier, "--no-proof", "--subrun", out]
+            if vname:
+                cmd += ["--variant", vname]
+            p = subprocess.run(cmd, capture_output=True, text=True, timeout=900 if tier == "quick" else 3000,
+                               env=dict(os.environ, VERIF_NO_VARIANTS="1"))
+            try:
+                res = json.loads(Path(out).read_text())
+            except Exception:
+                ctx.stats.notes.append(f"{name} repeat produced no result (exit {p.returncode}): {p.stderr[-300:]}")
+                continue
+            ctx.stats.hit("op", f"variant:{name} evaluations", int(res.get("evaluations") or 0))
+            ctx.stats.notes.append(
+                f"{name} repeat: {res.get('evaluations')} evaluations, {len(res.get('failures', []))} oracle failures, "
+                f"{res.get('n_disagreements')} disagreements (not reported), {_t.time() - t0:.1f}s"
+            )
+            if res.get("error"):
+                # the harness itself could not run under this variant: nothing is judged
+                ctx.stats.notes.append(f"{name} repeat: " + str(res["error"])[:300])
+                continue
+            for f in res.get("failures", []):
+                rep = f["replay"]
+                if isinstance(rep, dict):
+                    rep = dict(rep, python_flags=marker)
+                ctx.fail(f["signature"], f["description"] + f" [found under {name}]", rep, size=f.get("size"))
+        except subprocess.TimeoutExpired:
+            ctx.stats.notes.append(f"{name} repeat timed out (not judged)")
+        finally:
+            try:
+                os.unlink(out)
+            except OSError:
+                pass
 
 
 def main() -> int:
@@ -76,6 +94,7 @@ def main() -> int:
     ap.add_argument("--replay")
     ap.add_argument("--no-proof", action="store_true", help="skip the Lean build (debugging only)")
     ap.add_argument("--subrun", help="(internal) run under an interpreter variant, dump failures to this file")
+    ap.add_argument("--variant", default="", help="(internal) which variant this child is")
     args = ap.parse_args()
     prop = args.prop.upper()
     seed = int(os.environ.get("VERIF_SEED", "0") or 0)
@@ -112,6 +131,14 @@ def main() -> int:
         payload = json.loads(Path(args.replay).read_text())
         rep = payload.get("replay", payload)
         flags = rep.get("python_flags") if isinstance(rep, dict) else None
+        if flags == "warnings-as-errors" and args.variant != "W":
+            import subprocess
+
+            print("replaying with warnings raised inside pyhap turned into errors")
+            sys.stdout.flush()
+            return subprocess.call([sys.executable, __file__, prop, "--replay", args.replay, "--variant", "W"])
+        if args.variant == "W":
+            _warnings_as_errors()
         if flags == "-O" and not sys.flags.optimize:
             # the failing input needs the interpreter variant it was found under
             import subprocess
@@ -122,6 +149,8 @@ def main() -> int:
         return mod.replay(ctx, rep)
 
     if args.subrun:
+        if args.variant == "W":
+            _warnings_as_errors()
         # interpreter-variant repeat (see _interpreter_variants): correspondence + oracle only, bounded budget
         ctx.budget_scale = float(os.environ.get("VERIF_SUBRUN_SCALE", "0.3"))
         err = None
